@@ -1,5 +1,6 @@
 SPECIFICATION Spec
 CONSTANTS
+  CompressionLeftOfNegInf = TRUE
   Amps = {1, 3}
   Means <- MeansMC
   Diagrams = {"g0", "g3", "f0", "f1"}
